@@ -4,6 +4,11 @@ V = os.path.dirname(os.path.dirname(os.path.abspath(__file__)))
 props = [json.loads(l) for l in open(os.path.join(V, "properties.jsonl"))]
 
 CLAIMED = {
+    "C16": dict(
+        text="Coq theorems for every list of orders and every tie-break of round(): get_exposures' win/lose figures are within one penny (two roundings) of - and on the penny grid equal to - the brute-force worst case over EVERY subset of open orders filling at their limit (min over the cube = sum of per-order minima, by induction); market_exposure = sum of losing figures + k smallest differences, proved to be a lower bound for every k-subset of winners and attained by one (exchange argument over Permutation/StronglySorted); pending/refused statuses left out (PENDING_STATUS regenerated from source); exclusion/new-order as-if-removed/added for distinct orders, with the exclusion==new instance stated as refuted (finding F-C01-1). Tie to code: the three real Blotter functions on real orders vs. the model evaluated in Coq with both tie-breaks, plus the brute-force property checker evaluated on the implementation's own figures.",
+        note="Trusted: Coq kernel + vm_compute; harness/impl/c16.py builds real BetfairOrder/Blotter objects with simulated buckets set directly; exact-decimal model of float sums (equality demanded only when both tie-breaks agree). Print Assumptions: closed under the global context.",
+        technique="Coq proof (induction, lia/nia, Permutation exchange argument) + differential correspondence and brute-force spec evaluated in Coq",
+        ref="DESIGN.md §5 C16"),
     "C19": dict(
         text="Coq theorems over all hashes, separators and ids: parse(mk_ref) round-trips, all characters valid when the separator is valid, valid_sep <-> one character of the exchange's set, length <= 32 iff id < 10^18 (bound stated), equal references have equal hash and id (uniqueness/attribution). Tie to code: hash length / valid set / default separator regenerated from /repo each run; real orders' references, the separator setter (exhaustive below U+0300) and attribution through the real process_current_orders are evaluated against the model inside Coq.",
         note="Oracles (trusted, named): sha1 prefix = 13 hex chars (checked on every generated reference); uuid1().time injective within a run (tested with tight loops and 8 threads, not proved - partial for that clause); Python str(int) injective. Print Assumptions: closed under the global context.",
